@@ -7,7 +7,7 @@ Separate Extraction
   BinInt.Z.add BinInt.Z.mul BinInt.Z.sub BinInt.Z.opp BinInt.Z.div BinInt.Z.modulo
   BinInt.Z.eqb BinInt.Z.ltb BinInt.Z.leb BinInt.Z.of_nat BinInt.Z.to_nat BinInt.Z.of_N BinInt.Z.to_N
   BinNat.N.add BinNat.N.mul BinNat.N.of_nat BinNat.N.to_nat
-  Vp8lSpec.decode_full Vp8lSpec.decode Vp8lSpec.apply_inverse Vp8lSpec.copy_step Vp8lSpec.copy_pixels
+  Vp8lSpec.decode_full Vp8lSpec.decode_header Vp8lSpec.decode Vp8lSpec.apply_inverse Vp8lSpec.copy_step Vp8lSpec.copy_pixels
   Vp8lSpec.plane_to_dist Vp8lSpec.undelta Vp8lPrefix.tree_of_lens Vp8lPrefix.read_symbol
   Vp8lEmit.emit Vp8lEmit.sem Vp8lInPlace.apply_inverse_pingpong
   Vp8lKernels.copy_block Vp8lKernels.copy_fwd Vp8lKernels.expand_color_map.
